@@ -17,15 +17,15 @@ MANIFEST = {
              'restriction) inside the restriction and not lower than the previous value after its end; a point is removed or '
              'merged only when its left neighbour already carries the value the interval must keep; the restore point after the '
              'end of a restriction carries, and its suppression is decided on, the value the profile had there before the '
-             'restriction was applied. The index searches (idx_start / idx_end), sortedness and hence the pointwise equality '
-             'with the minimum are not decided.'),
+             'restriction was applied. The two index searches are decided as far as their exit test, start and unit step go (given a sorted profile they find the first point at or after the start and the last point at or before the end); sortedness of the stored profile across calls, and hence the pointwise equality with the minimum as a whole, is not decided.'),
     'note': 'Speeds taken non-negative for the order proofs (is_sign_positive := true); the sign convention of min_speed is covered by C02-1.',
 }
 EXPLANATION = 'Per-site lower-bound obligations on insert_speed and pre-value provenance of the restore decision.'
-RULES = ['C13-1.sites', 'C13-2.restore', 'C13-3.merge', 'C13-4.empty']
+RULES = ['C13-1.sites', 'C13-2.restore', 'C13-3.merge', 'C13-4.empty', 'C13-5.search']
 ASSUMPTIONS = ['speeds are non-negative in the order proofs', 'idx_start / idx_end are the positions their search loops are meant to find (not decided)']
 
 
 def run(ctx):
     SP.site_rules(ctx, 'C13', 'ge')
+    SP.searches(ctx, 'C13')
     SP.empty_restriction_rule(ctx)
